@@ -229,6 +229,18 @@ def metrics_world(h, pnls, types, fees, holds, balances):
     return trades, start, finish
 
 
+def t_pdmodel_selftest(h):
+    """library-specification guard: the pandas model must agree with the real pandas on concrete inputs; a disagreement
+    is a checker error (exit 3), never a violation"""
+    import importlib.util
+    spec = importlib.util.spec_from_file_location('pdmodel_selftest', os.path.join(HERE, '..', 'tools', 'pdmodel_selftest.py'))
+    mod = importlib.util.module_from_spec(spec)
+    spec.loader.exec_module(mod)
+    if mod.main() != 0:
+        raise RuntimeError('pyvc/pdmodel.py disagrees with the real pandas (tools/pdmodel_selftest.py)')
+    h.cover('metrics.pandas-model-agrees-with-real-pandas')
+
+
 def t_trade_metrics(types):
     """metrics.trades on n = len(types) closed trades with symbolic PnL / fee / holding period (real AST, pandas model)"""
     def t(h):
@@ -293,6 +305,7 @@ def tasks(tier):
     if tier == 'thorough':
         combos += [('long', 'short', 'long', 'short'), ('short', 'short', 'long', 'long', 'short')]
     xm = dict(x, np_scalar_div=True, merge_ifs=True, fork_solver=True)
+    ts.append(Task('metrics.pandas-model-selftest', t_pdmodel_selftest, extra=dict(x)))
     for types in combos:
         ts.append(Task('metrics.trades.' + ''.join(t_[0] for t_ in types), t_trade_metrics(types), overrides=dict(ov), max_paths=20000,
                        extra=dict(xm, bounded=f'{len(types)} closed trades (symbolic PnL, fee, holding period), pandas model', task_timeout_s=300 if tier == 'quick' else 1800)))
